@@ -96,6 +96,11 @@ func (l *lease) KeepAlive(ctx context.Context) {
 		case t := <-timeCh:
 			if t.After(maxExpire) {
 				maxExpire = t
+				// A keep-alive response that was in flight when the lease was closed
+				// (expire time reset to zero by Close) must not revive it.
+				if cur, ok := l.expireTime.Load().(time.Time); ok && cur.IsZero() {
+					return
+				}
 				l.expireTime.Store(t)
 			}
 		case <-time.After(l.leaseTimeout):
